@@ -189,6 +189,7 @@ func runC12(cx *Ctx, r *Report) {
 	}
 	cx.c12ImportLoops(r)
 	cx.c12Validators(r)
+	cx.c12ValidatorAccumulators(r)
 	r.requireCount("G1-runtime-exported", 55)
 	r.requireCount("G1-export-imported", 30)
 	r.requireCount("G1-derived-rebuilt", 15)
@@ -795,4 +796,154 @@ func shortCircuit(outer, inner Fact, fail *ssa.BasicBlock) bool {
 		return false
 	}
 	return other(ib, toward) == other(ob, ib)
+}
+
+// ------------------------------------------------------------- G5: order-insensitive validators
+
+// c12ValidatorAccumulators: exports list records in store-key order, which is
+// not creation order. A genesis validator therefore must not depend on the
+// order of the lists it walks: every value carried from one loop iteration to
+// the next (a loop-header phi) must be updated commutatively - max/min idiom
+// (assignment guarded by a comparison with the carried value), sum/append of
+// the carried value, or the loop counter. "Last element wins" is reported.
+func (cx *Ctx) c12ValidatorAccumulators(r *Report) {
+	n := 0
+	for _, m := range []string{"coinswap", "farm", "htlc", "mt", "nft", "oracle", "random", "record", "service", "token"} {
+		var val *ssa.Function
+		for _, e := range cx.entriesOfModule(m, "genesis") {
+			if e.Name == "ValidateGenesis" {
+				val = e.Fn
+			}
+		}
+		if val == nil {
+			continue
+		}
+		reach := cx.Reachable([]*ssa.Function{val}, nil)
+		for _, f := range reach.Order {
+			if f.Blocks == nil || !isIrismodFunc(f) {
+				continue
+			}
+			for _, h := range f.Blocks {
+				// loop header: has a predecessor it dominates
+				isHeader := false
+				for _, p := range h.Preds {
+					if h.Dominates(p) {
+						isHeader = true
+					}
+				}
+				if !isHeader {
+					continue
+				}
+				for _, ins := range h.Instrs {
+					phi, ok := ins.(*ssa.Phi)
+					if !ok {
+						break
+					}
+					// back-edge values
+					var ups []ssa.Value
+					for i, p := range h.Preds {
+						if h.Dominates(p) && i < len(phi.Edges) {
+							ups = append(ups, phi.Edges[i])
+						}
+					}
+					used := false
+					for _, ref := range *phi.Referrers() {
+						if _, isPhi := ref.(*ssa.Phi); !isPhi {
+							used = true
+						}
+					}
+					if !used || len(ups) == 0 {
+						continue
+					}
+					n++
+					key := m + "|" + anchorOf(cx, f) + "|" + phi.Comment
+					bad := ""
+					for _, u := range ups {
+						if why := orderSensitiveUpdate(phi, u, 0); why != "" {
+							bad = why
+						}
+					}
+					pos := cx.P.Pos(phi.Pos())
+					if bad == "" {
+						r.ok("G5-validator-order", key, pos, "value carried across iterations of a validator loop is updated commutatively (counter, sum/append, or max/min guarded by a comparison with itself)")
+					} else {
+						r.violate("G5-validator-order", key, pos, "genesis validation in "+shortFn(f)+" carries `"+phi.Comment+"` from one list element to the next and "+bad+": acceptance depends on the order of the list, but exports list records in store-key order, not creation order, so the export of a reachable state can be refused")
+					}
+				}
+			}
+		}
+	}
+	if n < 4 {
+		r.toolErr("only %d validator loop accumulators found (≥4 confirmed)", n)
+	}
+}
+
+// orderSensitiveUpdate: "" when the back-edge value u updates the carried phi p
+// commutatively; otherwise a description of the problem.
+func orderSensitiveUpdate(p *ssa.Phi, u ssa.Value, depth int) string {
+	if depth > 6 {
+		return "updates it in a way that could not be classified"
+	}
+	if u == p {
+		return ""
+	}
+	switch x := u.(type) {
+	case *ssa.Phi:
+		// a join inside the loop body: each incoming value must itself be fine, and
+		// an incoming value that does not mention p must be selected by a comparison with p
+		for i, e := range x.Edges {
+			if e == p {
+				continue
+			}
+			if derivesFrom(e, map[ssa.Value]bool{p: true}, 0, map[ssa.Value]bool{}) {
+				if why := orderSensitiveUpdate(p, e, depth+1); why != "" {
+					return why
+				}
+				continue
+			}
+			// e replaces p: the branch leading here must compare with p
+			guarded := false
+			if i < len(x.Block().Preds) {
+				for _, df := range dominatingFacts(x.Block().Preds[i]) {
+					if derivesFrom(df.Cond, map[ssa.Value]bool{p: true}, 0, map[ssa.Value]bool{}) {
+						guarded = true
+					}
+				}
+				// the predecessor may itself be the branching block
+				if ifi, ok := x.Block().Preds[i].Instrs[len(x.Block().Preds[i].Instrs)-1].(*ssa.If); ok {
+					if derivesFrom(ifi.Cond, map[ssa.Value]bool{p: true}, 0, map[ssa.Value]bool{}) {
+						guarded = true
+					}
+				}
+			}
+			if !guarded {
+				return "overwrites it with a per-element value without comparing the two (the last element wins)"
+			}
+		}
+		return ""
+	case *ssa.BinOp:
+		if (x.Op == token.ADD || x.Op == token.MUL || x.Op == token.OR || x.Op == token.AND || x.Op == token.LOR || x.Op == token.LAND) && (x.X == p || x.Y == p) {
+			return ""
+		}
+	case *ssa.Call:
+		args := x.Common().Args
+		if b, ok := x.Common().Value.(*ssa.Builtin); ok && b.Name() == "append" && len(args) > 0 && args[0] == p {
+			return ""
+		}
+		_, name := calleeName(x.Common())
+		mname := name[strings.LastIndex(name, ".")+1:]
+		if (mname == "Add" || mname == "Mul" || mname == "Union") && len(args) > 0 && args[0] == p {
+			return ""
+		}
+	case *ssa.Next:
+		return "" // iterator state
+	case *ssa.Extract:
+		if _, ok := x.Tuple.(*ssa.Next); ok {
+			return "" // iterator state
+		}
+	}
+	if !derivesFrom(u, map[ssa.Value]bool{p: true}, 0, map[ssa.Value]bool{}) {
+		return "overwrites it with a per-element value without comparing the two (the last element wins)"
+	}
+	return "updates it non-commutatively"
 }
